@@ -3,6 +3,7 @@ package harness
 import (
 	"context"
 	"fmt"
+	"runtime"
 	"sync"
 	"testing"
 	"testing/synctest"
@@ -148,6 +149,70 @@ func TestC02PanickingBuilder(t *testing.T) {
 
 			c.Assert(len(results) == nw, "stuck-get", "%d of %d Gets have not returned after the owner's builder panicked", nw-len(results), nw)
 			c.Assert(w.fe.KeyLocks() == 0, "leaked-key-lock", "%d key lock(s) still held", w.fe.KeyLocks())
+		})
+	})
+}
+
+const c04gRule = "a background build whose function ends its goroutine (runtime.Goexit, what t.FailNow does inside a builder): key acceptably stale, SyncUpdate off, 5 variants x SyncRead x MaxStaleness {0, 1h}; the Get is served the stale value, the background builder exits its goroutine; " +
+	"oracle: no key lock remains afterwards, and a Get after UpdateTTL (the re-stored stale value has expired again) invokes its builder and returns; non-trivial = always"
+
+// TestC04GoexitBuilder: a background build that never returns normally still releases its key lock.
+func TestC04GoexitBuilder(t *testing.T) {
+	runCheck(t, "C04", "C04GoexitBuilder", c04gRule, func(c *Case) {
+		cfg := foCfg{
+			variant: c.Pick("variant", nVariants), syncRead: c.Bool("SyncRead"), backendTTL: time.Hour, failedUpdateTTL: -1,
+			maxStaleness: []time.Duration{0, time.Hour}[c.Pick("MaxStaleness", 2)], updateTTL: time.Minute,
+		}
+
+		c.Class("variant=" + variantNames[cfg.variant])
+		c.Tracef("config: %s", cfg)
+		c.NonTrivial()
+
+		c.Bubble(func() {
+			w := newWorld(c, cfg)
+			key := []byte("gk")
+			_ = w.be.Write(ttlCtx(time.Second), key, initToken(key))
+
+			time.Sleep(2 * time.Second)
+			w.attach()
+
+			exited := false
+			v, err := w.fe.Get(context.Background(), append([]byte{}, key...), func(context.Context) (string, error) {
+				exited = true
+
+				runtime.Goexit()
+
+				return "", nil
+			})
+			synctest.Wait()
+
+			c.Tracef("first Get = (%v, %v), background builder entered=%v", v, err, exited)
+			c.Assert(err == nil && gstr(v) == initToken(key), "stale-not-served", "Get on an acceptably stale key returned (%v, %v)", v, err)
+			c.Assert(exited, "no-background-build", "the background builder was not invoked")
+			c.Assert(w.fe.KeyLocks() == 0, "leaked-key-lock", "%d key lock(s) still held after the background builder ended its goroutine", w.fe.KeyLocks())
+
+			time.Sleep(2 * time.Minute) // the re-stored stale value (UpdateTTL 1m) has expired again
+
+			var (
+				v2    interface{}
+				err2  error
+				done  bool
+				built int
+			)
+
+			go func() {
+				v2, err2 = w.fe.Get(context.Background(), append([]byte{}, key...), func(context.Context) (string, error) {
+					built++
+
+					return tokenFor(key, "second", 1), nil
+				})
+				done = true
+			}()
+
+			synctest.Wait()
+			c.Tracef("later Get done=%v = (%v, %v), builder invoked %d times", done, v2, err2, built)
+			c.Assert(done, "stuck-get", "a Get after the aborted background build has not returned")
+			c.Assert(built == 1, "followup-no-build", "a Get after the aborted background build (stale value expired again) invoked its builder %d times, want 1", built)
 		})
 	})
 }
